@@ -39,6 +39,13 @@ PROPS = {
                 families=[eng("engine", "C04", 1200, 20000, ["nil", "issues", "dest", "calls", "panic"])]),
     "C05": dict(theorems=["C05_engine_computes_semantics"], cone=ENGINE_CONE, rule=ENGINE_RULE,
                 families=[eng("engine", "C05", 1200, 20000, ["nil", "issues", "dest", "panic"])]),
+    "C07": dict(theorems=["C07_reinit_zog_issue", "C07_reinit_ctx_issue", "C07_reinit_issue_from_test", "C07_reinit_issue_from_coerce", "C07_reinit_exec_ctx",
+                          "C07_reinit_schema_ctx", "C07_reinit_validate_schema_ctx", "C07_fresh_ctx_has_no_values", "C07_pools_stay_linear",
+                          "C07_held_issues_are_distinct_and_not_pooled", "C07_result_is_a_function_of_this_call", "C07_legacy_collect_map_refuted"],
+                cone=["Model/Objects.v", "Proofs/ObjectsP.v"] + ENGINE_CONE,
+                rule="a generated probe execution (schema, data, WithCtxValue / WithIssueFormatter options) is run on freshly cleared pools, after a random history of 1-5 other executions whose results are kept or handed back through CollectMap / CollectList / SanitizeMapAndCollect / SanitizeListAndCollect (GC off, goroutine pinned, so the pools really recycle), and on pools handing out dirty objects (every field junk, CanCatch/Exit set, context values, stale path segments); every issue field, the destination and ctx.Get inside every callback are compared; issue objects of one result must be pairwise distinct; the probe is also compared with the Coq engine; distinct = distinct (schema shape, issue codes, mode)",
+                families=[dict(name="history", family="history", profile="C07", quick=900, thorough=15000,
+                               tags=["isolation", "isolation_dirty", "issue_aliased", "panic", "ctx"])]),
     "C09": dict(theorems=["C09_engine_computes_semantics"], cone=ENGINE_CONE, rule=ENGINE_RULE,
                 families=[eng("engine", "C09", 1000, 16000, ["repeat", "repeat_ptgate", "panic"])]),
     "C10": dict(theorems=["C10_engine_computes_semantics"], cone=ENGINE_CONE, rule=ENGINE_RULE,
